@@ -34,6 +34,11 @@ package corebgp
 //@   ensures [silent_otherwise] !r ==> nwrites(f.conn) == old(nwrites(f.conn))
 
 // ---- timers (C06) ----
+// Assumption (listed): a timer armed for one hour and stopped immediately has not fired.
+//@ func newStoppedTimer returns (t)
+//@   at call Stop#0 after assume result
+//@   ensures [stopped] t != nil && fresh(t) && !timerOn(t) && !timerMayHold(t)
+
 //@ func fsm.drainAndResetHoldTimer
 //@   requires f.holdTimer != nil
 //@   modifies timerOn(f.holdTimer), timerDur(f.holdTimer), timerMayHold(f.holdTimer)
@@ -41,6 +46,8 @@ package corebgp
 
 // ---- reader life cycle (C10) ----
 //@ func fsm.startReading
+//@   requires [fields] readerFields(f)
+//@   ensures [fields] readerFields(f)
 //@   requires !readerRunning(f)
 //@   at call read#0 set readerRunning(f) = true
 //@   modifies f.closeReaderCh, f.closeReaderOnce, f.readerDoneCh, f.readerErrCh, f.readerMsgCh, readerRunning(f), onceDone(f.closeReaderOnce)
@@ -48,6 +55,8 @@ package corebgp
 
 // conn closed if there is one, reader joined, f.conn cleared
 //@ func fsm.cleanupConnAndReader
+//@   requires [fields] readerFields(f)
+//@   ensures [fields] readerFields(f)
 //@   requires [reader_channels] readerRunning(f) ==> f.closeReaderCh != nil && f.readerDoneCh != nil
 //@   requires [once] f.closeReaderCh != nil ==> f.readerDoneCh != nil && (chanClosed(f.closeReaderCh) == onceDone(f.closeReaderOnce))
 //@   modifies f.conn, connClosed(f.conn), readerRunning(f), chanClosed(f.closeReaderCh), onceDone(f.closeReaderOnce)
@@ -70,6 +79,8 @@ package corebgp
 
 // ---- OPEN is sent once per connection, after GetCapabilities (C01, C14) ----
 //@ func fsm.sendOpenAndSetHoldTimer returns (s)
+//@   requires [fields] readerFields(f)
+//@   ensures [fields] readerFields(f)
 //@   requires [self] fsmSelf(f) && f.conn != nil && !connClosed(f.conn) && !readerRunning(f)
 //@   ghostvar ncaps int = 0
 //@   ghostvar nwr int = 0
@@ -90,6 +101,8 @@ package corebgp
 //@   ensures true
 
 //@ func fsm.dialPeer
+//@   requires [fields] readerFields(f)
+//@   ensures [fields] readerFields(f)
 //@   requires !dialPending(f)
 //@   at call dialPeer$1#0 set dialPending(f) = true
 //@   modifies f.dialResultCh, f.cancelDialFn, dialPending(f)
@@ -99,6 +112,8 @@ package corebgp
 //@ chaninv fsm.dialResultCh(r) = r != nil && (r.err == nil ==> r.conn != nil && !connClosed(r.conn)) && (r.err != nil ==> r.conn == nil)
 
 //@ func fsm.idle returns (s)
+//@   requires [fields] readerFields(f)
+//@   ensures [next_state_ready] stateReq(f, s) && readerFields(f) && fsmSelf(f)
 //@   requires [self] fsmSelf(f) && !dialPending(f) && !readerRunning(f)
 //@   ghostvar timerArm bool = false
 //@   at select#0 case 1 set timerArm = true
@@ -110,6 +125,8 @@ package corebgp
 // A dial result that is not going to be used is consumed and, if it carries a
 // connection, that connection is closed (no leak).
 //@ func fsm.dropDialResult
+//@   requires [fields] readerFields(f)
+//@   ensures [fields] readerFields(f)
 //@   requires f.dialResultCh != nil
 //@   ghostvar got int = 0
 //@   at recv dialResultCh#0 after set got = (result != nil ? result.conn.val : 0)
@@ -121,6 +138,8 @@ package corebgp
 // busy redial); the retry timer abandons the pending attempt and starts a new
 // one; every dial result is consumed and a connection that is not used is closed.
 //@ func fsm.connect returns (s)
+//@   requires [fields] readerFields(f)
+//@   ensures [next_state_ready] stateReq(f, s) && readerFields(f) && fsmSelf(f)
 //@   requires [self] fsmSelf(f) && dialPending(f) && f.dialResultCh != nil && f.cancelDialFn != nil && f.connectRetryTimer != nil && !readerRunning(f)
 //@   ghostvar redials int = 0
 //@   at call dialPeer#0 set redials = redials + 1
@@ -135,6 +154,8 @@ package corebgp
 // Active: an inbound FSM sends its OPEN at once; an outbound FSM waits for the
 // connect-retry timer, re-arms it and dials (passive peers have no outbound FSM).
 //@ func fsm.active returns (s)
+//@   requires [fields] readerFields(f)
+//@   ensures [next_state_ready] stateReq(f, s) && readerFields(f) && fsmSelf(f)
 //@   requires [self] fsmSelf(f) && !dialPending(f) && !readerRunning(f) && (f.conn == nil ==> f.connectRetryTimer != nil) && (f.conn != nil ==> !connClosed(f.conn))
 //@   ghostvar timerArm bool = false
 //@   at select#0 case 0 set timerArm = true
@@ -191,8 +212,203 @@ package corebgp
 //@   ensures [accepted_or_keepalive_failed] arm == 3 && validated && !valErr && plugN == 0 ==> to == 5 || to == 1
 //@   ensures [hold_time_negotiated] to == 5 ==> f.holdTime == min(f.peer.options.holdTime, rhold * 1000000000) && (rhold == 0 || rhold >= 3)
 //@   ensures [timers_for_nonzero_hold_time] to == 5 && f.holdTime != 0 ==> f.holdTime >= 3000000000 && f.keepAliveInterval == f.holdTime / 3 && f.keepAliveTimer != nil && timerOn(f.keepAliveTimer) && timerDur(f.keepAliveTimer) == f.holdTime / 3 && timerOn(f.holdTimer) && timerDur(f.holdTimer) == f.holdTime && !timerMayHold(f.holdTimer)
-//@   ensures [timers_for_zero_hold_time] to == 5 && f.holdTime == 0 ==> f.keepAliveTimer != nil && !timerOn(f.keepAliveTimer) && !timerOn(f.holdTimer) && !timerMayHold(f.holdTimer)
+//@   ensures [timers_for_zero_hold_time] to == 5 && f.holdTime == 0 ==> f.keepAliveTimer != nil && !timerOn(f.keepAliveTimer) && !timerMayHold(f.keepAliveTimer) && !timerOn(f.holdTimer) && !timerMayHold(f.holdTimer)
+//@   ensures [timers_distinct] (to == 5 ==> f.keepAliveTimer != f.holdTimer && f.holdTimer == old(f.holdTimer)) && (to == 3 ==> f.connectRetryTimer != f.holdTimer && f.holdTimer == old(f.holdTimer))
+//@   ensures [hold_time_legal] to == 5 ==> f.holdTime == 0 || f.holdTime >= 3000000000
+//@   ensures [active_has_retry_timer] to == 3 ==> f.connectRetryTimer != nil && timerOn(f.connectRetryTimer) && timerDur(f.connectRetryTimer) == f.peer.options.connectRetryTime
 //@   ensures [received_notification_is_silent] arm == 3 && !validated && hasType(err, *notificationError) && !firstOf(err, *notificationError).out ==> to == 1 && nwrites(f.conn) == old(nwrites(f.conn))
 //@   ensures [unexpected_message] arm == 3 && !validated && hasType(err, *notificationError) && firstOf(err, *notificationError).out ==> to == 1 && nwrites(f.conn) == old(nwrites(f.conn)) + 1 && lastNotif(f.conn, 5, 1) && lastDataLen(f.conn) == 1 && (lastData0(f.conn) == 2 || lastData0(f.conn) == 4)
 //@   ensures [message_arm_always_reports] arm == 3 && !validated ==> hasType(err, *notificationError)
 //@   ensures [error_well_formed] err != nil ==> errWellFormed(err)
+
+// openSent: whatever the inner function decides, a connection that does not
+// progress to OpenConfirm is torn down (closed, reader joined, hold timer stopped).
+//@ func fsm.openSent returns (to, err)
+//@   requires [no_dial] !dialPending(f)
+//@   requires [fields] readerFields(f)
+//@   ensures [next_state_ready] stateReq(f, to) && readerFields(f) && fsmSelf(f)
+//@   requires [self] fsmSelf(f) && connUp(f) && f.holdTimer != nil
+//@   modifies f.conn, f.remoteID, f.holdTime, f.keepAliveInterval, f.keepAliveTimer, f.connectRetryTimer, nwrites(f.conn), lastKind(f.conn), lastCode(f.conn), lastSub(f.conn), lastDataLen(f.conn), lastData0(f.conn), connClosed(f.conn), readerRunning(f), chanClosed(f.closeReaderCh), onceDone(f.closeReaderOnce), timerOn, timerDur, timerMayHold
+//@   ensures [result_states] to == 0 || to == 1 || to == 3 || to == 5
+//@   ensures [error_unless_progress] (to == 5) == (err == nil)
+//@   ensures [torn_down_unless_progress] to != 5 ==> f.conn == nil && connClosed(old(f.conn)) && !readerRunning(f) && !timerOn(f.holdTimer)
+//@   ensures [session_continues] to == 5 ==> f.conn == old(f.conn) && connUp(f) && sessionTimers(f) && (f.holdTime == 0 || f.holdTime >= 3000000000)
+//@   ensures [active_has_retry_timer] to == 3 ==> f.connectRetryTimer != nil && timerOn(f.connectRetryTimer) && timerDur(f.connectRetryTimer) == f.peer.options.connectRetryTime
+//@   ensures [at_most_one_write] nwrites(old(f.conn)) == old(nwrites(f.conn)) || nwrites(old(f.conn)) == old(nwrites(f.conn)) + 1
+//@   ensures [error_well_formed] err != nil ==> errWellFormed(err)
+
+// ---- OpenConfirm (C06 C09 C10) ----
+// arm: 0 close request, 1 hold timer, 2 keepalive timer, 3 reader error, 4 message.
+//@ func fsm.openConfirm$1 returns (to, err)
+//@   requires [self] fsmSelf(f) && connUp(f) && sessionTimers(f)
+//@   ghostvar arm int = -1
+//@   ghostvar nka int = 0
+//@   at select#0 case 0 set arm = 0
+//@   at select#0 case 1 set arm = 1
+//@   at select#0 case 1 assert [no_expiry_when_hold_time_zero] f.holdTime != 0
+//@   at select#0 case 2 set arm = 2
+//@   at select#0 case 2 assert [no_keepalive_when_hold_time_zero] f.holdTime != 0
+//@   at select#0 case 3 set arm = 3
+//@   at select#0 case 4 set arm = 4
+//@   at call sendKeepAlive#0 set nka = nka + 1
+//@   loop#0 invariant [session] fsmSelf(f) && connUp(f) && sessionTimers(f) && nwrites(f.conn) == old(nwrites(f.conn)) + nka && nka >= 0 && f.conn == old(f.conn)
+//@   modifies nwrites(f.conn), lastKind(f.conn), lastCode(f.conn), lastSub(f.conn), lastDataLen(f.conn), lastData0(f.conn), timerOn, timerDur, timerMayHold
+//@   ensures [result_states] to == 0 || to == 1 || to == 6
+//@   ensures [error_unless_progress] (to == 6) == (err == nil)
+//@   ensures [close_sends_cease] arm == 0 ==> to == 0 && lastNotif(f.conn, 6, 0) && hasType(err, *notificationError)
+//@   ensures [hold_timer_expiry] arm == 1 ==> to == 1 && lastNotif(f.conn, 4, 0) && hasType(err, *notificationError) && firstOf(err, *notificationError).notification.Code == 4
+//@   ensures [keepalive_send_failure] arm == 2 ==> to == 1 && !hasType(err, *notificationError)
+//@   ensures [reader_error] arm == 3 ==> to == 1 && err != nil && (hasType(err, *notificationError) ==> lastNotif(f.conn, firstOf(err, *notificationError).notification.Code, firstOf(err, *notificationError).notification.Subcode))
+//@   ensures [keepalive_establishes] to == 6 ==> arm == 4 && sessionTimers(f) && (f.holdTime != 0 ==> !timerMayHold(f.holdTimer))
+//@   ensures [received_notification_is_silent] arm == 4 && to == 1 && !firstOf(err, *notificationError).out ==> nwrites(f.conn) == old(nwrites(f.conn)) + nka
+//@   ensures [unexpected_message] arm == 4 && to == 1 && firstOf(err, *notificationError).out ==> lastNotif(f.conn, 5, 2) && lastDataLen(f.conn) == 1 && (lastData0(f.conn) == 1 || lastData0(f.conn) == 2)
+//@   ensures [message_arm_always_reports] arm == 4 && to == 1 ==> hasType(err, *notificationError)
+//@   ensures [error_well_formed] err != nil ==> errWellFormed(err)
+
+//@ func fsm.openConfirm returns (to, err)
+//@   requires [no_dial] !dialPending(f)
+//@   requires [fields] readerFields(f)
+//@   ensures [next_state_ready] stateReq(f, to) && readerFields(f) && fsmSelf(f)
+//@   requires [self] fsmSelf(f) && connUp(f) && sessionTimers(f)
+//@   modifies f.conn, nwrites(f.conn), lastKind(f.conn), lastCode(f.conn), lastSub(f.conn), lastDataLen(f.conn), lastData0(f.conn), connClosed(f.conn), readerRunning(f), chanClosed(f.closeReaderCh), onceDone(f.closeReaderOnce), timerOn, timerDur, timerMayHold
+//@   ensures [result_states] to == 0 || to == 1 || to == 6
+//@   ensures [error_unless_progress] (to == 6) == (err == nil)
+//@   ensures [torn_down_unless_progress] to != 6 ==> f.conn == nil && connClosed(old(f.conn)) && !readerRunning(f) && !timerOn(f.holdTimer) && !timerOn(f.keepAliveTimer)
+//@   ensures [session_continues] to == 6 ==> f.conn == old(f.conn) && connUp(f) && sessionTimers(f)
+//@   ensures [error_well_formed] err != nil ==> errWellFormed(err)
+
+// ---- Established (C01 C03 C04 C06 C09 C10) ----
+
+// WriteUpdate: one complete UPDATE message per successful call, on the session's
+// own connection only; nothing is written once the writer has been closed.
+//@ func updateMessageWriter.WriteUpdate returns (err)
+//@   requires [writer] u.conn != nil && u.closeCh != nil && u.resetKATimerCh != nil
+//@   requires [fits] len(b) <= 4077
+//@   at call Write#0 assert [one_update_message] len(arg1) == 19 + len(b) && markerOK(arg1) && be16(arg1, 16) == 19 + len(b) && arg1[18] == 2 && (forall i :: 0 <= i && i < len(b) ==> arg1[19+i] == b[i]) && arg0 == u.conn
+//@   modifies nwrites(u.conn), lastKind(u.conn)
+//@   ensures [closed_writer_fails] old(chanClosed(u.closeCh)) ==> err != nil && nwrites(u.conn) == old(nwrites(u.conn))
+//@   ensures [success_is_one_write] err == nil ==> nwrites(u.conn) == old(nwrites(u.conn)) + 1 && lastKind(u.conn) == 2
+//@   ensures [at_most_one_write] nwrites(u.conn) <= old(nwrites(u.conn)) + 1
+
+// The keepalive-timer manager goroutine: resets the keepalive timer on every
+// signal iff the hold time is non-zero; returns when told to.
+//@ func fsm.established$1
+//@   requires f != nil && f.keepAliveTimer != nil && kaManagerDoneCh != nil && !chanClosed(kaManagerDoneCh) && closeKAManagerCh != nil && resetKATimerCh != nil
+//@   at call Reset#0 assert [only_for_nonzero_hold_time] f.holdTime != 0 && arg1 == f.keepAliveInterval
+//@   modifies timerOn, timerDur, timerMayHold, chanClosed
+
+// arm: 0 close request, 1 hold timer, 2 keepalive timer, 3 reader error, 4 message.
+//@ func fsm.established$2 returns (to, err)
+//@   requires [fields] readerFields(f)
+//@   ensures [fields] readerFields(f)
+//@   requires [self] fsmSelf(f) && connUp(f) && estTimers(f) && resetKATimerCh != nil && closeKAManagerCh != nil && !chanClosed(closeKAManagerCh) && closeKAManagerCh != f.closeReaderCh
+//@   ghostvar arm int = -1
+//@   ghostvar nEst int = 0
+//@   ghostvar wr int = 0
+//@   at select#0 case 0 set arm = 0
+//@   at select#0 case 1 set arm = 1
+//@   at select#0 case 1 assert [no_expiry_when_hold_time_zero] f.holdTime != 0
+//@   at select#0 case 2 set arm = 2
+//@   at select#0 case 2 assert [no_keepalive_when_hold_time_zero] f.holdTime != 0
+//@   at select#0 case 3 set arm = 3
+//@   at select#0 case 4 set arm = 4
+//@   at call OnEstablished#0 assert [first_callback] nEst == 0 && nwrites(f.conn) == old(nwrites(f.conn))
+//@   at call OnEstablished#0 assert [writer_bound_to_this_connection] isType(arg2, *updateMessageWriter) && asType(arg2, *updateMessageWriter).conn == f.conn && asType(arg2, *updateMessageWriter).closeCh != nil && !chanClosed(asType(arg2, *updateMessageWriter).closeCh) && asType(arg2, *updateMessageWriter).resetKATimerCh == resetKATimerCh
+//@   at call OnEstablished#0 set nEst = nEst + 1
+//@   at call OnEstablished#0 set wr = asType(arg2, *updateMessageWriter)
+//@   at call handler#0 assert [only_while_established] nEst == 1 && !chanClosed(asPtr(wr, *updateMessageWriter).closeCh)
+//@   loop#0 invariant [session] fsmSelf(f) && connUp(f) && estTimers(f) && nEst == 1 && f.conn == old(f.conn) && wr != 0 && asPtr(wr, *updateMessageWriter).closeCh != nil && !chanClosed(asPtr(wr, *updateMessageWriter).closeCh) && !chanClosed(closeKAManagerCh) && resetKATimerCh != nil && closeKAManagerCh != asPtr(wr, *updateMessageWriter).closeCh
+//@   modifies nwrites(f.conn), lastKind(f.conn), lastCode(f.conn), lastSub(f.conn), lastDataLen(f.conn), lastData0(f.conn), timerOn, timerDur, timerMayHold, chanClosed(closeKAManagerCh)
+//@   ensures [result_states] to == 0 || to == 1
+//@   ensures [always_an_error] err != nil && errWellFormed(err)
+//@   ensures [on_established_once] nEst == 1
+//@   ensures [writer_closed_on_exit] chanClosed(asPtr(wr, *updateMessageWriter).closeCh) && chanClosed(closeKAManagerCh)
+//@   ensures [close_sends_cease] arm == 0 ==> to == 0 && lastNotif(f.conn, 6, 0) && hasType(err, *notificationError)
+//@   ensures [hold_timer_expiry] arm == 1 ==> to == 1 && lastNotif(f.conn, 4, 0) && hasType(err, *notificationError) && firstOf(err, *notificationError).notification.Code == 4
+//@   ensures [keepalive_send_failure] arm == 2 ==> to == 1 && !hasType(err, *notificationError)
+//@   ensures [reader_error] arm == 3 ==> to == 1 && (hasType(err, *notificationError) ==> lastNotif(f.conn, firstOf(err, *notificationError).notification.Code, firstOf(err, *notificationError).notification.Subcode))
+//@   ensures [message_arm_always_reports] arm == 4 ==> to == 1 && hasType(err, *notificationError)
+//@   ensures [notification_sent_verbatim_or_fsm_error] arm == 4 && firstOf(err, *notificationError).out ==> lastNotif(f.conn, firstOf(err, *notificationError).notification.Code, firstOf(err, *notificationError).notification.Subcode) && lastDataLen(f.conn) == len(firstOf(err, *notificationError).notification.Data)
+//@   ensures [conn_unchanged] f.conn == old(f.conn) && connUp(f)
+
+// established: the keepalive manager is started before OnEstablished; OnClose is
+// called exactly once on every path, after the writer has been closed, the
+// connection torn down, the reader and the keepalive manager joined.
+//@ func fsm.established returns (to, err)
+//@   requires [no_dial] !dialPending(f)
+//@   requires [fields] readerFields(f)
+//@   ensures [next_state_ready] stateReq(f, to) && readerFields(f) && fsmSelf(f)
+//@   requires [self] fsmSelf(f) && connUp(f) && sessionTimers(f)
+//@   ghostvar kaRunning bool = false
+//@   ghostvar nClose int = 0
+//@   at call established$1#0 set kaRunning = true
+//@   at recv kaManagerDoneCh#0 after set kaRunning = false
+//@   at call established$2#0 assert [keepalive_manager_runs_before_callbacks] kaRunning
+//@   at call OnClose#0 assert [after_teardown] f.conn == nil && !readerRunning(f) && !kaRunning && nClose == 0
+//@   at call OnClose#0 set nClose = nClose + 1
+//@   modifies f.conn, nwrites(f.conn), lastKind(f.conn), lastCode(f.conn), lastSub(f.conn), lastDataLen(f.conn), lastData0(f.conn), connClosed(f.conn), readerRunning(f), chanClosed(f.closeReaderCh), onceDone(f.closeReaderOnce), timerOn, timerDur, timerMayHold
+//@   ensures [result_states] to == 0 || to == 1
+//@   ensures [always_an_error] err != nil && errWellFormed(err)
+//@   ensures [on_close_exactly_once] nClose == 1
+//@   ensures [control_channels_untouched] chanClosed(f.doneCh) == old(chanClosed(f.doneCh)) && chanClosed(f.closeCh) == old(chanClosed(f.closeCh))
+//@   ensures [keepalive_manager_joined] !kaRunning
+//@   ensures [torn_down] f.conn == nil && connClosed(old(f.conn)) && !readerRunning(f) && !timerOn(f.holdTimer) && !timerOn(f.keepAliveTimer)
+
+// ---- the reader goroutine: framing and header validation (C03 C08) ----
+// One iteration = one message: 19 header octets, then exactly length-19 body
+// octets, then exactly one hand-over (message or error) or a close. Every error
+// sent is tied to a fault actually present in the header that was read.
+//@ func fsm.read
+//@   requires f != nil && f.conn != nil && f.readerDoneCh != nil && !chanClosed(f.readerDoneCh) && f.closeReaderCh != nil && f.readerErrCh != nil && f.readerMsgCh != nil
+//@   loop#0 invariant [reader] f.conn != nil && f.readerDoneCh != nil && !chanClosed(f.readerDoneCh) && f.closeReaderCh != nil && f.readerErrCh != nil && f.readerMsgCh != nil
+//@   loop#1 invariant [marker_so_far] 0 <= i && i <= 16 && len(header) == 19 && (forall j :: 0 <= j && j < i ==> header[j] == 255)
+//@   at call ReadFull#0 assert [header_is_19_octets] len(arg1) == 19
+//@   at call ReadFull#1 assert [body_is_length_minus_19] len(arg1) == be16(header, 16) - 19 && len(arg1) > 0 && markerOK(header) && 19 <= be16(header, 16) && be16(header, 16) <= 4096
+//@   at select#1 case 1 assert [not_synchronized_fault_present] 0 <= i && i < 16 && header[i] != 255
+//@   at select#2 case 1 assert [bad_length_fault_present] markerOK(header) && (be16(header, 16) < 19 || be16(header, 16) > 4096)
+//@   at call messageFromBytes#0 assert [whole_body_and_type_octet] markerOK(header) && 19 <= be16(header, 16) && be16(header, 16) <= 4096 && len(arg0) == be16(header, 16) - 19 && arg1 == header[18]
+//@   at select#5 case 1 assert [only_known_types_delivered] 1 <= header[18] && header[18] <= 4
+//@   modifies chanClosed(f.readerDoneCh)
+//@   ensures [done_signalled] chanClosed(f.readerDoneCh)
+
+// ---- the FSM goroutine (C01 C07 C10) ----
+// what each state function needs on entry; every state function establishes the
+// requirement of the state it returns
+//@ pure stateReq(f, s) = (s == 1 ==> !dialPending(f) && !readerRunning(f)) && (s == 2 ==> dialPending(f) && f.dialResultCh != nil && f.cancelDialFn != nil && f.connectRetryTimer != nil && !readerRunning(f)) && (s == 3 ==> !dialPending(f) && !readerRunning(f) && (f.conn == nil ==> f.connectRetryTimer != nil) && (f.conn != nil ==> !connClosed(f.conn))) && (s == 4 ==> connUp(f) && f.holdTimer != nil && !dialPending(f)) && ((s == 5 || s == 6) ==> connUp(f) && sessionTimers(f) && !dialPending(f))
+//@ pure readerFields(f) = f.closeReaderCh != f.doneCh && f.closeReaderCh != f.closeCh && (readerRunning(f) ==> f.closeReaderCh != nil && f.readerDoneCh != nil) && (f.closeReaderCh != nil ==> f.readerDoneCh != nil && (chanClosed(f.closeReaderCh) == onceDone(f.closeReaderOnce))) && (dialPending(f) ==> f.cancelDialFn != nil && f.dialResultCh != nil) && (f.cancelDialFn != nil ==> f.dialResultCh != nil)
+
+// cleanup: dial cancelled and consumed, connection closed, reader joined, timers stopped
+//@ func fsm.cleanup
+//@   requires [self] fsmSelf(f) && readerFields(f) && (f.cancelDialFn != nil ==> f.dialResultCh != nil)
+//@   loop#0 invariant [stopped_so_far] -1 <= rangeindex && rangeindex <= 3 && f.conn == nil && !readerRunning(f) && (old(f.cancelDialFn) != nil ==> !dialPending(f)) && (old(f.conn) != nil ==> connClosed(old(f.conn))) && (rangeindex >= 0 && f.connectRetryTimer != nil ==> !timerOn(f.connectRetryTimer)) && (rangeindex >= 1 && f.holdTimer != nil ==> !timerOn(f.holdTimer)) && (rangeindex >= 2 && f.keepAliveTimer != nil ==> !timerOn(f.keepAliveTimer)) && (rangeindex >= 3 ==> !timerOn(f.idleHoldTimer))
+//@   modifies f.conn, connClosed, readerRunning(f), dialPending(f), chanClosed(f.closeReaderCh), onceDone(f.closeReaderOnce), timerOn, timerMayHold
+//@   ensures [conn_closed] old(f.conn) != nil ==> connClosed(old(f.conn))
+//@   ensures [conn_cleared] f.conn == nil
+//@   ensures [reader_joined] !readerRunning(f)
+//@   ensures [dial_consumed] old(f.cancelDialFn) != nil ==> !dialPending(f)
+//@   ensures [no_dial_untouched] old(f.cancelDialFn) == nil ==> dialPending(f) == old(dialPending(f))
+//@   ensures [timers_stopped] (f.connectRetryTimer != nil ==> !timerOn(f.connectRetryTimer)) && (f.holdTimer != nil ==> !timerOn(f.holdTimer)) && (f.keepAliveTimer != nil ==> !timerOn(f.keepAliveTimer)) && !timerOn(f.idleHoldTimer)
+
+// run: every state function is entered only with the transition the manager
+// echoed (rely: the manager echoes exactly the requested transition or the FSM
+// is disabled); a FSM disabled while it waits for approval with a live session
+// (left OpenSent or later) sends Cease first; on return everything it started is
+// stopped and joined and doneCh is closed.
+//@ func fsm.run
+//@   requires [self] fsmSelf(f) && !dialPending(f) && !readerRunning(f) && f.closeReaderCh == nil && f.cancelDialFn == nil && f.doneCh != nil && !chanClosed(f.doneCh) && (f.conn != nil ==> !connClosed(f.conn))
+//@   ghostvar echoTo int = 0
+//@   at select#0 case 1 set echoTo = 0
+//@   at select#1 case 0 set echoTo = 0
+//@   at select#1 case 1 assume result == t
+//@   at select#1 case 1 set echoTo = result.to
+//@   at call sendNotification#0 assert [cease] arg1.Code == 6 && arg1.Subcode == 0 && len(arg1.Data) == 0
+//@   at call idle#0 assert [approved] echoTo == 1
+//@   at call connect#0 assert [approved] echoTo == 2
+//@   at call active#0 assert [approved] echoTo == 3
+//@   at call openSent#0 assert [approved] echoTo == 4
+//@   at call openConfirm#0 assert [approved] echoTo == 5
+//@   at call established#0 assert [approved] echoTo == 6
+//@   at return#0 assert [cease_when_disabled_mid_transition] toBefore != 0 && t.from > 3 && f.conn != nil ==> lastNotif(f.conn, 6, 0)
+//@   loop#0 invariant [state] fsmSelf(f) && readerFields(f) && stateReq(f, t.to) && t.to <= 6 && t.from <= 6 && (t.to == 5 ==> t.from == 4) && !chanClosed(f.doneCh) && (t.to == 0 || t.to == 1 ==> !dialPending(f))
+//@   modifies f.conn, f.remoteID, f.holdTime, f.keepAliveInterval, f.keepAliveTimer, f.holdTimer, f.connectRetryTimer, f.dialResultCh, f.cancelDialFn, f.closeReaderCh, f.closeReaderOnce, f.readerDoneCh, f.readerErrCh, f.readerMsgCh, nwrites, lastKind, lastCode, lastSub, lastDataLen, lastData0, connClosed, readerRunning(f), dialPending(f), chanClosed, onceDone, timerOn, timerDur, timerMayHold
+//@   ensures [everything_stopped] f.conn == nil && !readerRunning(f) && !dialPending(f) && chanClosed(f.doneCh)
